@@ -114,8 +114,28 @@ pub fn mutants(seed: &[u8], m: &Value) -> Vec<Vec<u8>> {
             _ => seed.to_vec(),
         }
     };
+    // every CRLF of the seed replaced by the class byte
+    let eol = |doc: &[u8]| -> Vec<u8> {
+        let mut v = Vec::with_capacity(doc.len());
+        let mut i = 0;
+        while i < doc.len() {
+            if doc[i] == b'\r' && i + 1 < doc.len() && doc[i + 1] == b'\n' {
+                v.push(b);
+                i += 2;
+            } else {
+                v.push(doc[i]);
+                i += 1;
+            }
+        }
+        v
+    };
     match op {
         "identity" => vec![seed.to_vec()],
+        "eol" => vec![eol(seed)],
+        "eol_truncate" => {
+            let d = eol(seed);
+            (0..=d.len()).map(|p| d[..p].to_vec()).collect()
+        }
         "nest" => {
             // n opening delimiters in front of the seed (deep nesting), and the same around it
             let n = at;
